@@ -9,15 +9,20 @@ BOUNDS = {"n": "symbolic over the whole range [0, 2^64) (forks over the 16 digit
                             "and lengths 1..3 over arbitrary bytes for the raise/accept behaviour",
           "string model": "<= 20 characters, 8-bit code points"}
 OUTSIDE = ["strings longer than 16 hex digits (values >= 2^64)", "non-ASCII digits accepted by int()",
-           "f-string / %-formatting refactors (reported inconclusive, not modelled)"]
+           "decimal rendering of a symbolic integer (%d, str(n)), bytes.fromhex / int.from_bytes (reported inconclusive, not modelled)"]
 STUBS = ["math.log/log2/floor/ceil -> symx.shims.IntMath (over-approximating float contract; witnesses are replayed with a boundary sweep)",
          "hex -> symx.strs.hex_model (sign, 0x, minimal lower-case digits)",
          "int -> symx.strs.int_model (whitespace, sign, 0x prefix, either case, single underscores; ValueError otherwise)",
          "format -> symx.strs.format_model (x/X/b/o with fill/align/#/0/width)",
+         "string literals of a5/core/hex.py -> symx.strlift.KStr, f-strings -> symx.strlift.fstr (module re-compiled from its current source; "
+         "%-formatting x/X/o/s, str.format, join, indexing and index/find of a literal by a symbolic operand are modelled, plain str otherwise)",
          "str methods on symbolic strings: slicing, lower/upper, strip family, zfill, startswith, removeprefix, replace"]
 ASSUMPTIONS = ["the builtin models follow the Python language reference; validated differentially against the real builtins "
                "in the conformance job of every run"]
 
+PCT = [("%x%08x", lambda n, hi, lo: (hi, lo)), ("%X", lambda n, hi, lo: n), ("%#x|%-6x|%6x", lambda n, hi, lo: (n, lo & 0xFF, lo & 0xFFF)),
+       ("%016x%%", lambda n, hi, lo: (n,)), ("%o", lambda n, hi, lo: n)]
+BRACE = [("{:x}{:08x}", lambda n, hi, lo: (hi, lo)), ("{0:#x}/{1:X}/{0:b}", lambda n, hi, lo: (lo & 0xFFFF, hi)), ("{:>20x}", lambda n, hi, lo: (n,))]
 HEXCH = [ord(ch) for ch in "0123456789abcdefABCDEF"]
 
 
@@ -141,6 +146,14 @@ def h_conformance(seed=0):
             c.observe("fmt:" + sp, _chars(strs.format_int(n, sp)))
         c.observe("int", strs.int_model(strs.hex_model(n), 16))
         c.observe("int0", strs.int_model(strs.SymStr(_chars(strs.hex_model(n))[2:]).zfill(18), 16))
+        from symx import strlift
+        hi, lo = n >> 32, n & 0xFFFFFFFF
+        for k, (f, a) in enumerate(PCT):
+            c.observe("pct%d" % k, _chars(strlift.KStr(f) % a(n, hi, lo)))
+        for k, (f, a) in enumerate(BRACE):
+            c.observe("brace%d" % k, _chars(strlift.KStr(f).format(*a(n, hi, lo))))
+        c.observe("fstr", _chars(strlift.fstr(("<", (hi, None, "x"), "|", (lo, None, "08X"), ">"))))
+        c.observe("tab", _chars(strlift.KStr("").join(strlift.KStr("0123456789abcdef")[(n >> (4 * i)) & 15] for i in range(15, -1, -1))))
     for v in vals:
         r = sx.explore(h, {"v": v}, pins={"n": v})
         st.paths += r.stats.paths
@@ -158,6 +171,17 @@ def h_conformance(seed=0):
                 bad.append(("format " + sp, v, g))
         if o["int"] != v or o["int0"] != v:
             bad.append(("int", v, o["int"], o["int0"]))
+        hi, lo = v >> 32, v & 0xFFFFFFFF
+        for k, (f, a) in enumerate(PCT):
+            if "".join(chr(x) for x in o["pct%d" % k]) != f % a(v, hi, lo):
+                bad.append(("percent " + f, v))
+        for k, (f, a) in enumerate(BRACE):
+            if "".join(chr(x) for x in o["brace%d" % k]) != f.format(*a(v, hi, lo)):
+                bad.append(("brace " + f, v))
+        if "".join(chr(x) for x in o["fstr"]) != f"<{hi:x}|{lo:08X}>":
+            bad.append(("fstr", v))
+        if "".join(chr(x) for x in o["tab"]) != "%016x" % v:
+            bad.append(("table-join", v))
     # int_model on concrete-but-lifted strings incl. invalid ones
     strings = ["0", "00", "ff", "FF", "0xff", "0XfF", " 1f ", "+a", "-a", "_1", "1_", "1__2", "1_2", "", " ", "0x", "g", "12g", "0x_1f", "\t7\n",
                "ABCDEF0123456789", "ffffffffffffffff", "0_0"]
@@ -185,7 +209,7 @@ def h_conformance(seed=0):
     res.stats = st
     if bad:
         raise RuntimeError("string model disagrees with the real builtins: %r" % (bad[:5],))
-    res.samples = [{"obligation": "conformance", "claim": "hex/format/int models == real builtins on %d pinned values and %d strings" % (len(vals), len(strings)), "path": []}]
+    res.samples = [{"obligation": "conformance", "claim": "hex/format/int/%%-format/str.format/f-string/table-join models == real builtins on %d pinned values and %d strings" % (len(vals), len(strings)), "path": []}]
     return res
 
 
